@@ -71,7 +71,7 @@ type Term struct {
 type TermBank struct {
 	tab    map[string]*Term
 	n      int
-	decls  []*Term          // declared constants (Op=="var") in order
+	decls  []*Term // declared constants (Op=="var") in order
 	funs   map[string]*FunDecl
 	funOrd []string
 	fresh  map[string]int
@@ -81,7 +81,7 @@ type FunDecl struct {
 	Name string
 	Args []*Sort
 	Ret  *Sort
-	Def  string // optional full SMT definition text (define-fun ...) ; if empty, declare-fun
+	Def  string   // optional full SMT definition text (define-fun ...) ; if empty, declare-fun
 	Lits []string // string literals occurring in Def
 }
 
